@@ -27,7 +27,7 @@ from .common import Check, REPO
 
 CLASS_NAMES = ["A", "B", "C", "D", "E"]
 FUNC_NAMES = ["g0", "g1"]
-KEY_IDS = {**{f"f{i}": i for i in range(10)}, "a": 0, "<return>": 1, "x": 50, "k": 60, "k2": 61, "zz": 99}
+KEY_IDS = {**{f"f{i}": i for i in range(40)}, "a": 0, "<return>": 1, "x": 50, "k": 60, "k2": 61, "zz": 99}
 KEY_NAMES = {}
 for _k, _v in KEY_IDS.items():
     KEY_NAMES.setdefault(_v, _k)
@@ -70,10 +70,15 @@ def field_src(case, t) -> str:
     return ann_src(t)
 
 
+def bases_of(c) -> list:
+    """base classes as written (`base`: single-base form kept for recorded witnesses)"""
+    return list(c.get("bases") or ([c["base"]] if c.get("base") else []))
+
+
 def class_src(case, name, ind) -> list:
     c = case["classes"][name]
     lines = []
-    base = c.get("base")
+    base = ", ".join(bases_of(c))
     if c.get("kind") == "dataclass":
         lines.append(f"{ind}@utype.dataclass")
         lines.append(f"{ind}class {name}" + (f"({base}):" if base else ":"))
@@ -220,11 +225,14 @@ def strip(t):
 
 
 def all_fields(case, name):
+    """inherited fields first (`for base in reversed(bases): fields.update(...)`), then the class's own;
+    a repeated name keeps its first position and takes the last value (dict.update)"""
     c = case["classes"][name]
-    base = all_fields(case, c["base"]) if c.get("base") else []
-    own = [(f, strip(t)) for f, t in c["fields"]]
-    names = {f for f, _ in own}
-    return [(f, t) for f, t in base if f not in names] + own
+    d = {}
+    for b in reversed(bases_of(c)):
+        d.update(all_fields(case, b))
+    d.update((f, strip(t)) for f, t in c["fields"])
+    return list(d.items())
 
 
 class Bad(Exception):
@@ -347,9 +355,19 @@ def anns_of(case, name):
 def mentions(case, name):
     """class names a declaration mentions (own annotations, base)"""
     ms = [r["n"] for t in anns_of(case, name) for r in refs_of(t)]
-    if name in case["classes"] and case["classes"][name].get("base"):
-        ms.append(case["classes"][name]["base"])
+    if name in case["classes"]:
+        ms += bases_of(case["classes"][name])
     return ms
+
+
+def reach_bases(case, name):
+    """strict ancestors of a class"""
+    out = []
+    for b in bases_of(case["classes"][name]):
+        for a in [b] + reach_bases(case, b):
+            if a not in out:
+                out.append(a)
+    return out
 
 
 def reach(case, name):
@@ -509,8 +527,7 @@ def model_val(v):
 
 
 def modelled(case) -> bool:
-    # the Lean model follows one level of inheritance
-    return not any(c.get("base") and case["classes"][c["base"]].get("base") for c in case["classes"].values())
+    return True
 
 
 def model_line(case, cfg=None):
@@ -539,10 +556,10 @@ def model_line(case, cfg=None):
                 else:
                     fa = {"plain": model_ann(t, cells, (i, f))}
                 fields.append([KEY_IDS[f], fa])
-            base = case["classes"][name].get("base") if not func else None
+            bases = bases_of(case["classes"][name]) if not func else []
             ops.append({"def": name_id(name), "fields": fields, "local": local,
                         "bound": case.get("scope") != "function", "func": func,
-                        "base": name_id(base) if base else None})
+                        "bases": [name_id(b) for b in bases]})
         elif "use" in op:
             ops.append({"use": name_id(op["use"]), "kvs": model_val(op["input"])["dict"]})
         else:
@@ -720,7 +737,7 @@ def gen_use(rng, case, tgt, risky=False):
 
 
 def gen_case(rng, tier="quick"):
-    ncls = rng.choice([2, 2, 3, 3, 4])
+    ncls = rng.choice([2, 2, 3, 3, 4, 4, 5])
     names = CLASS_NAMES[:ncls]
     order = names[:]
     rng.shuffle(order)
@@ -742,14 +759,37 @@ def gen_case(rng, tier="quick"):
             fields.append([f"f{i}", t])
         classes[n] = {"fields": fields, "kind": "dataclass" if rng.random() < 0.3 else "schema",
                       "local": scope == "module" and rng.random() < 0.15}
-    # inheritance (not in the Lean model: spec sweep only)
-    if ncls >= 3 and rng.random() < 0.15:
-        sub, base = order[-1], order[0]
-        if not classes[base].get("local") and not classes[sub].get("local"):
-            classes[sub]["base"] = base
-            classes[sub]["kind"] = classes[base]["kind"]
-            nb = len(classes[base]["fields"])
-            classes[sub]["fields"] = [[f"f{nb + i}", t] for i, (_, t) in enumerate(classes[sub]["fields"])]
+    # inheritance: chains of any depth, several bases, diamonds; field names unique in the family; some
+    # classes add nothing that needs a reference (their own registry stays empty)
+    if ncls >= 3 and rng.random() < 0.3:
+        kind = rng.choice(["schema", "schema", "dataclass"])
+        anc = {n: set() for n in names}
+        dummy = {}
+        for pos, n in enumerate(order):
+            classes[n]["kind"] = kind
+            earlier = order[:pos]
+            r = rng.random()
+            bases = []
+            if earlier and r < 0.6:
+                bases = [earlier[-1] if rng.random() < 0.7 else rng.choice(earlier)]
+            elif len(earlier) >= 2 and r < 0.85:
+                cand = [(x, y) for x in earlier for y in earlier if x != y and x not in anc[y] and y not in anc[x]]
+                bases = list(rng.choice(cand)) if cand else []
+            try:        # Python must find a method resolution order for the family
+                dummy[n] = type(n, tuple(dummy[x] for x in bases), {})
+            except TypeError:
+                bases = bases[:1]
+                dummy[n] = type(n, tuple(dummy[x] for x in bases), {})
+            classes[n]["bases"] = bases
+            for b in bases:
+                anc[n] |= {b} | anc[b]
+        off = 0
+        for n in order:
+            fs = classes[n]["fields"]
+            if classes[n]["bases"] and rng.random() < 0.45:
+                fs = [[f, {"t": "int"}] for f, _ in fs][:2]
+            classes[n]["fields"] = [[f"f{off + i}", t] for i, (_, t) in enumerate(fs)]
+            off += len(fs)
     # spellings
     p_direct = rng.choice([0.0, 0.3, 0.5, 0.8])
     SCHEMA_OK[0] = set() if future else {n for n in names if classes[n]["kind"] == "schema"}
@@ -833,6 +873,53 @@ def shapes(maxk=2):
     return out
 
 
+def chain_shapes():
+    """systematic inheritance part: chains of 2-4 classes (and a diamond) above a class E that is defined
+    last; one class of the family declares the references to E, the others add plain fields only; every
+    first-use order of the family (all permutations up to 3 classes, rotations and the reverse for 4)"""
+    import itertools
+    out = []
+    rng = random.Random(23)
+    SHALLOW_UNIONS[0] = False
+    E = lambda: {"t": "ref", "n": "E", "q": True}  # noqa: E731
+    carrier_fields = lambda: [{"t": "list", "a": E()}, E(), {"t": "opt", "a": E()}]  # noqa: E731
+
+    def build(fam_bases, carrier, mode, use_order):
+        classes, off = {}, 0
+        for n, bases in fam_bases:
+            ts = carrier_fields() if n == carrier else [{"t": "int"}]
+            classes[n] = {"fields": [[f"f{off + i}", t] for i, t in enumerate(ts)], "bases": bases,
+                          "kind": mode.get("kind", "schema"), "local": bool(mode.get("local"))}
+            off += len(ts)
+        classes["E"] = {"fields": [["x", {"t": "int"}]], "kind": mode.get("kind", "schema"), "local": False}
+        case = {"classes": classes, "funcs": {}, "future": bool(mode.get("future")), "scope": "module"}
+        case["prog"] = [{"def": n} for n, _ in fam_bases] + [{"def": "E"}]
+        for n in use_order:
+            inp = {f: gen_input(rng, case, t, 1, 0.0) for f, t in all_fields(case, n)}
+            case["prog"].append({"use": n, "input": inp})
+        return case
+
+    for mode in ({}, {"kind": "dataclass"}, {"local": True}, {"future": True}):
+        for depth in (2, 3, 4):
+            fam = CLASS_NAMES[:depth]
+            fam_bases = [(n, [fam[i - 1]] if i else []) for i, n in enumerate(fam)]
+            if depth <= 3:
+                orders = list(itertools.permutations(fam))
+            else:
+                orders = [fam[i:] + fam[:i] for i in range(depth)] + [fam[::-1], [fam[-1]]]
+            for carrier in fam:
+                for uo in orders:
+                    out.append(build(fam_bases, carrier, mode, list(uo)))
+        # diamond D(B, C), B(A), C(A) and the two-root join C(A, B)
+        for carrier in ("A", "B"):
+            for db in (["B", "C"], ["C", "B"]):
+                for uo in (["D"], ["D", "B", "C", "A"], ["C", "D"], ["B", "D", "A"]):
+                    out.append(build([("A", []), ("B", ["A"]), ("C", ["A"]), ("D", db)], carrier, mode, uo))
+            for uo in (["C"], ["C", "A", "B"], ["B", "C"]):
+                out.append(build([("A", []), ("B", []), ("C", ["A", "B"])], carrier, mode, uo))
+    return out
+
+
 # ------------------------------------------------------------------------------------------------
 
 class C17(Check):
@@ -843,7 +930,8 @@ class C17(Check):
     case_timeout = 20.0
     rule = ("programs of 2-4 mutually referencing data classes (+ parsed functions) x spelling of every reference "
             "(bare name, quoted leaf inside List/Dict/Optional/Union/Tuple, whole-string annotation, future annotations, "
-            "function-local classes) x definition order x first-use order x type-directed inputs; plus every one- and "
+            "function-local classes, inheritance chains of any depth with several bases) x definition order x first-use order "
+            "x type-directed inputs; plus every first-use order of 2-4 level chains / diamonds; plus every one- and "
             "two-annotation combination of 9 spellings of A->B in 5 modes and both orders.  non-trivial = a use whose "
             "class reaches a reference that was unresolved when its declaration was created (lazy path); distinct by "
             "(program, use index)")
@@ -858,6 +946,7 @@ class C17(Check):
         out = []
         if tier != "search":
             out += shapes(3 if tier == "thorough" else 2)
+            out += chain_shapes()
         out += [gen_case(rng, "thorough" if tier == "thorough" else "quick") for _ in range(n)]
         return out
 
@@ -955,7 +1044,7 @@ class C17(Check):
                     sp.add("quoted" if r.get("q") else "direct")
         mode = ("future" if case.get("future") else "") + ("/fnscope" if case.get("scope") == "function" else "") + \
                ("/local" if any(c.get("local") for c in case["classes"].values()) else "") + \
-               ("/base" if not modelled(case) else "") + ("/func" if case["funcs"] else "")
+               ("/inh%d" % max(len(reach_bases(case, n)) for n in case["classes"]) if any(bases_of(c) for c in case["classes"].values()) else "") + ("/func" if case["funcs"] else "")
         outs = io.get("outs", []) if isinstance(io, dict) else []
         kinds = sorted({("ok" if "ok" in o else o.get("err", "?")) for o in outs})
         return f"{mode or 'plain'}|{'+'.join(sorted(sp))}|{'+'.join(kinds)}"
@@ -996,7 +1085,8 @@ class C17(Check):
             "every combination of <= %d annotations out of 9 spellings (bare/quoted leaf, List, Dict, Optional, Tuple, "
             "Union, List[Optional], Optional[List], whole string) of a reference A->B x {module, future, function scope, "
             "factory-local, dataclass} x both definition orders" % (3 if tier == "thorough" else 2))
-        ev["coverage"]["unmodelled"] = "inheritance deeper than one level (not generated) would go through the spec sweep only"
+        ev["coverage"]["exhaustive_part"] += ("; inheritance chains of 2-4 classes + diamond + two-root join x which class "
+                                              "declares the references x every first-use order (rotations for 4) x 4 modes")
 
     def reproduce(self, case):
         return (f"cat > /tmp/c17_repro.py <<'EOF'\nimport sys; sys.path.insert(0, {str(REPO)!r}); sys.path.insert(0, '.')\n"
